@@ -41,7 +41,10 @@ StrLit(s) == NTpl("q", <<NTLit(s)>>)
 
 Leaves ==
     {NNum(0), NNum(2), NNum(4), NNum(1), NNum(3), NBool(TRUE), NBool(FALSE), NNull,
-     StrLit("a"), StrLit(""), StrLit("1"), StrLit("true"), NVar("zz")}
+     StrLit("a"), StrLit(""), StrLit("1"), StrLit("true"), NVar("zz"),
+     \* string literals that need escape sequences in source: newline, quote, backslash, a literal
+     \* template introducer, a multi-byte letter
+     StrLit("n\nl"), StrLit("q\"t"), StrLit("a\\b"), StrLit("${x}"), StrLit("%{y}")}
     \cup {NVar(x) : x \in ScopeNames}
 
 PNum  == {NVar("n1"), NNum(4), NNum(0), NVar("sn"), NVar("s"), NVar("nul")}
@@ -129,7 +132,11 @@ WTpl(x) ==
      NTpl("q", <<NTFor(0, 0, "v", x, NTpl("q", <<NInterp(0, NVar("v"))>>))>>),
      NTpl("q", <<NTFor(0, 1, "v", x, NTpl("q", <<NInterp(0, NVar("k")), NTLit("a")>>))>>),
      NTpl("q", <<NTLit("x"), NTFor(6, 0, "v", x, NTpl("q", <<NTLit(" a "), NInterp(0, NVar("v")), NTLit(" ")>>)), NTLit(" a")>>),
-     NTpl("q", <<NTFor(0, 0, "v", NVar("l"), NTpl("q", <<NInterp(0, x)>>))>>)}
+     NTpl("q", <<NTFor(0, 0, "v", NVar("l"), NTpl("q", <<NInterp(0, x)>>))>>),
+     \* nested quoted templates: both levels unwrap / only the inner one does
+     NTpl("q", <<NInterp(0, NTpl("q", <<NInterp(0, x)>>))>>),
+     NTpl("q", <<NTLit("a"), NInterp(0, NTpl("q", <<NTLit("b"), NInterp(0, x)>>))>>),
+     NTpl("q", <<NTLit("${x}"), NInterp(0, x), NTLit("q\"t")>>)}
 
 Core(x) == WUn(x) \cup WParen(x) \cup WAttr(x)
            \cup {NBin("+", x, NVar("n1")), NBin("*", NVar("n2"), x), NBin("==", x, NVar("n1")), NBin("&&", x, NVar("b")),
